@@ -92,4 +92,7 @@ class Run:
 
 
 def signature(sc, rule, msg):
-    return {"rule": rule, "ops": sorted(set(catalog.ops_of(sc.get("program", {}))))}
+    if "chain" in sc:
+        return {"rule": rule, "ops": sorted(set(n["op"] for n in sc["chain"]))}
+    prog = sc.get("program")
+    return {"rule": rule, "ops": sorted(set(catalog.ops_of(prog))) if isinstance(prog, dict) else []}
